@@ -136,7 +136,8 @@ class StmtMixin:
             for a in ast.walk(call):
                 if isinstance(a, ast.Call) and a is not call:
                     f = self.dotted(a.func)
-                    if f not in ("len", "str", "type", "repr", "colored", "format") and not (f or "").endswith(".join") and not (f or "").endswith(".format") and not (f or "").endswith(".items") and not (f or "").endswith(".description"):
+                    pure_methods = (".join", ".format", ".items", ".description", ".resolve", ".hex", ".absolute", ".name", ".keys", ".values")
+                    if f not in ("len", "str", "type", "repr", "colored", "format", "hash", "id") and not any((f or "").endswith(m_) for m_ in pure_methods):
                         return False
                 if isinstance(a, (ast.Await, ast.NamedExpr, ast.Yield)):
                     return False
@@ -255,6 +256,9 @@ class StmtMixin:
         if isinstance(target, ast.Name):
             if isinstance(val, tuple):
                 val = self.new_list(st, self.mkseq(list(val)), "tuple")
+            lt = self.local_types.get(target.id)
+            if lt and isinstance(val, V) and val.ty is None:
+                val = self.typed(st, V(val.t, lt, val.src))      # declared static type of a local (sidecar)
             st.env[target.id] = val
         elif isinstance(target, (ast.Tuple, ast.List)):
             if isinstance(val, tuple):
@@ -292,6 +296,9 @@ class StmtMixin:
     def assign(self, st, target, val, lineno):
         """-> list[Res] (assignment may raise through a property setter contract)"""
         if isinstance(target, ast.Name):
+            lt = self.local_types.get(target.id)
+            if lt and isinstance(val, V) and val.ty is None:
+                val = self.typed(st, V(val.t, lt, val.src))
             st.env[target.id] = val
             return [Res(st)]
         if isinstance(target, ast.Attribute):
